@@ -702,7 +702,14 @@ func (r *checkRun) replayNative(c *cexFile) (string, *replayResult, error) {
 		return "", nil, err
 	}
 	defer os.Remove(cexPath)
-	cmd := exec.Command("timeout", "120", bin, "-test.run", "^TestVerifReplay$", "-test.v", "-test.count=1")
+	replayTimeout := "120"
+	targs := []string{}
+	if v := os.Getenv("GOSYM_REPLAY_TIMEOUT"); v != "" { // debugging aid: shorter deadline, goroutine dump on expiry
+		replayTimeout = v
+		targs = append(targs, "-s", "QUIT")
+	}
+	targs = append(targs, replayTimeout, bin, "-test.run", "^TestVerifReplay$", "-test.v", "-test.count=1")
+	cmd := exec.Command("timeout", targs...)
 	cmd.Dir = filepath.Join(repoRoot, pkgDir)
 	cmd.Env = append(os.Environ(), "VERIF_CEX="+cexPath)
 	// memory cap for hostile-allocation replays
